@@ -104,6 +104,20 @@ def explore(world0, name='', max_states=200000, max_seconds=600.0, max_depth=400
         stop_on_violation = True
     res = Result(name)
     rnd = random.Random(seed)
+    root = world0.recipe() if hasattr(world0, 'recipe') else None
+
+    def restore_at(snap, path):
+        '''restore(); if the pickle cannot be LOADED (e.g. the library made an asset hash by an attribute that is not
+        there yet while its container is being rebuilt), the state is rebuilt by replaying its path from the root.'''
+        try:
+            return restore(snap)
+        except HarnessError:
+            raise
+        except Exception:
+            if root is None:
+                raise
+            return ReplaySnap(root.cls, root.args, root.kwargs, list(root.trail) + list(path)).build()
+
     with _Quiet():
         d0 = world0.digest()
         seen = {d0: world0.budget}
@@ -117,7 +131,7 @@ def explore(world0, name='', max_states=200000, max_seconds=600.0, max_depth=400
                 res.capped = f'max_seconds={max_seconds}'
                 break
             snap, path = stack.pop()
-            w = restore(snap)
+            w = restore_at(snap, path)
             labels = list(w.menu())
             if not labels:
                 raise HarnessError(f'{name}: no enabled transition in a non-final state at {path}')
@@ -132,7 +146,7 @@ def explore(world0, name='', max_states=200000, max_seconds=600.0, max_depth=400
             res.max_depth = max(res.max_depth, depth)
             n = len(labels)
             for i, label in enumerate(labels):
-                w2 = w if i == n - 1 else restore(snap)
+                w2 = w if i == n - 1 else restore_at(snap, path)
                 p2 = path + (label,)
                 try:
                     w2.apply(label)
